@@ -374,3 +374,5 @@ _quick("C14", "C14_textreply", "three LOCK / UNLOCK pairs on one text connection
 _quick("C17", "C17_zerowaiter", "a holder and 1..2 queued requests of which the first, the second or both have Expried 0 (granted, such a request is answered SUCCED and holds nothing); the holder unlocks, the queue is served, whatever holds is released, wheel swept: LockedCount and WaitCount equal the census after each phase and are zero at the end", ["-witness", "1"])
 
 _quick("C10", "C10_probable", "the same 0..3 holds (symbolic Count of the oldest) on a leader instance and, from the stream, on a follower instance; the same request (concurrent-check flag, Timeout 0, symbolic Count, with or without wait-when-unlocked) to the leader's LockDB.Lock and to the follower's LockDB.CheckProbableLock: whenever the follower answers on its own, its answer is the leader's", ["-witness", "1"], reach=["end", "answered-locally"])
+
+_quick("C13", "C13_execute", "a LOCK carrying an EXECUTE value frame (nested LOCK with a 4-byte value, stage current / unlock / timeout) whose nested length prefix is any value 0..16 and whose tail is cut by 0..6 bytes, through the real LockDB.Lock -> ProcessLockData -> DecodeLockCommand, then UNLOCK: answered, no crash", ["-witness", "10"], blocked="violation")
